@@ -228,6 +228,11 @@ def check(run, prog):
             ck.same("R1", fi.where, f"concatenate: {label}", f"is refused with {exc}", e.exc_name == exc, found=str(e)[:140], nontrivial=True)
         except Unsupported as e:
             ck.unk("R1", fi.where, f"concatenate: {label}", f"is refused with {exc}", str(e))
+    # NT: the axis may be a NumPy integer
+    for cls, axv in (("Signal", 0), ("RadioSignal", 0), ("RadioSignal", 1)):
+        sigs_nt, _ = zip(*[mk(prog, cls, k, nchan=2, start=st, align="bottom") for k, st in enumerate((False, True, True))])
+        ck.number_types("NT", fi.where, f"concatenate([{cls} x3], axis={axv})",
+                        lambda ev, mkn, sigs_nt=sigs_nt, axv=axv: ev.call(fi, [ListV(list(sigs_nt))], {"axis": mkn(axv)}))
     run.extra["decided_by"] = ck.how
 
 
